@@ -58,9 +58,100 @@ def gen_expired_refresh_fails(rng, tier):
     return {"header": header, "ops": ops}
 
 
+def gen_expiry_restore_evict(rng, tier):
+    """the store is filled at staggered instants (sometimes an entry's `inserted_at` is refreshed by a late concurrent
+    completion, which under FIFO keeps its queue position); time advances so that some entries - never only the
+    newest - have expired while younger ones are still valid; some of the expired keys are requested again in any
+    order (lazy removal of an oldest / middle slot, then a re-store); new keys then force evictions, and after them
+    every key is looked up, survivors first, which reveals the victim. One or two such rounds, any policy.
+    The generator follows the reference store (`_Ref`, first allowed LFU victim) only to aim its time advances
+    and lookups; it is not an oracle."""
+    policy = rng.choice(["fifo", "lru", "lfu"])
+    mx = rng.choice([2, 3, 3, 4, 4, 5])
+    ttl = rng.choice([10, 20, rng.randint(6, 40)])
+    shared = rng.choice([0, 0, 1, 2])
+    header = "cache max=%d policy=%s ttl=%d shared=%d" % (mx, policy, ttl, shared)
+    ref = _Ref(policy, mx, ttl)
+    w = {"st": (), "now": 0, "c": 0, "nextkey": mx + 1}
+    ops = []
+    slow = []           # [caller, key, due]: concurrent misses that complete (and re-insert) later
+
+    def arrive(key, lat, out):
+        w["c"] += 1
+        svc = "" if shared == 0 else " svc=%d" % rng.randint(0, 1)
+        ops.append("arrive %d key=%d%s inner=%d:%s" % (w["c"], key, svc, lat, out))
+        hit, w["st"] = ref.get(w["st"], key, w["now"])
+        return w["c"], hit
+
+    def request(key, out="ok"):
+        c, hit = arrive(key, 0, out)
+        ops.append("poll %d" % c)
+        if not hit and out == "ok":
+            w["st"] = ref.insert(w["st"], key, w["now"])[0][0]
+
+    def adv(d):
+        ops.append("adv %d" % d)
+        w["now"] += d
+        for p in [p for p in slow if p[2] <= w["now"]]:
+            slow.remove(p)
+            ops.append("poll %d" % p[0])
+            w["st"] = ref.insert(w["st"], p[1], w["now"])[0][0]
+
+    def present():
+        return [k for k, _, _ in w["st"]]
+
+    def readback():
+        here = present()
+        rng.shuffle(here)
+        gone = [k for k in range(1, w["nextkey"]) if k not in here]
+        rng.shuffle(gone)
+        for k in here + gone[:rng.randint(1, max(1, len(gone)))]:
+            request(k)
+
+    for k in range(1, mx + 1):                   # fill, oldest first
+        if rng.random() < 0.25:
+            lat = rng.randint(2, ttl)
+            c, hit = arrive(k, lat, "ok")
+            if not hit:
+                slow.append([c, k, w["now"] + lat])
+        request(k)
+        adv(rng.choice([0, 1, 1, 2, 3, max(1, ttl // 4)]))
+    for _ in range(rng.randint(0, 3)):           # uses: LRU order / LFU counts differ from the insertion order
+        if present():
+            request(rng.choice(present()))
+        if rng.random() < 0.3:
+            adv(rng.choice([0, 1]))
+    for _ in range(rng.choice([1, 1, 2])):
+        stamps = sorted({ins for _, ins, _ in w["st"]})
+        if len(stamps) >= 2:                     # expire the entries stamped <= stamps[j], keep the younger ones
+            j = rng.randint(0, len(stamps) - 2)
+            lo, hi = stamps[j] + ttl + 1, stamps[j + 1] + ttl
+            adv(max(0, rng.choice([lo, lo, hi, rng.randint(lo, hi)]) - w["now"]))
+        else:
+            adv(rng.choice([1, ttl, ttl + 1]))
+        old = [k for k, ins, _ in w["st"] if w["now"] - ins > ttl]
+        rng.shuffle(old)
+        for k in old[:rng.randint(1, max(1, len(old)))]:     # lazy removal + re-store, in any order
+            request(k, out="ok" if rng.random() < 0.9 else "err1")
+            if rng.random() < 0.25 and present():
+                request(rng.choice(present()))
+        for _ in range(rng.randint(1, 2)):       # new keys: evictions
+            request(w["nextkey"])
+            w["nextkey"] += 1
+            if rng.random() < 0.6:
+                readback()
+    ops.append("settle")
+    readback()
+    ops.append("settle")
+    return {"header": header, "ops": ops}
+
+
 def gen(rng, tier):
-    if rng.random() < 0.08:
+    r0 = rng.random()
+    if r0 < 0.08:
         return gen_expired_refresh_fails(rng, tier)
+    if r0 < 0.20:
+        return gen_expiry_restore_evict(rng, tier)
     policy = rng.choice(["lru", "lfu", "fifo"])
     mx = rng.choice([1, 1, 2, 2, 2, 3, 3, 4])
     if rng.random() < 0.02:
@@ -347,6 +438,7 @@ def _policy_walk(case, lines):
     cands = {()}
     caller = {}
     tags = []
+    restored = set()    # keys whose expired entry was lazily removed at some point (a later store is a re-store)
     for e in evs:
         if e["kind"] == "lookup":
             caller[e["c"]] = e
@@ -355,6 +447,11 @@ def _policy_walk(case, lines):
                 hit, st2 = ref.get(st, e["key"], e["t"])
                 if hit == e["hit"]:
                     nxt.add(st2)
+                    if len(st2) < len(st):
+                        restored.add(e["key"])
+                        i = [k for k, _, _ in st].index(e["key"])
+                        if len(st) >= 3 and i != (0 if policy == "lru" else len(st) - 1):
+                            tags.append("expired-removed-not-newest")
             if not nxt:
                 what = "hit" if e["hit"] else "missed"
                 shown = sorted(cands)[:3]
@@ -373,6 +470,8 @@ def _policy_walk(case, lines):
                     nxt.add(st2)
                     if victim is not None:
                         tags.append("evict-" + policy)
+                        if any(k in restored for k, _, _ in st):
+                            tags.append("evict-after-expiry-restore")
                         if nallowed > 1:
                             tags.append("lfu-tie")
             cands = nxt
@@ -486,26 +585,34 @@ SPECS = {
         "all_transitions": ["hit", "miss-cold", "miss-expired", "miss-evicted", "hit-at-ttl", "miss-at-ttl+1", "store-new-key",
                             "store-again", "overwrite-by-later-completion", "concurrent-miss-same-key", "err-not-cached",
                             "panic-not-cached", "dropped-pending", "shared-cross-hit", "evict-lru", "evict-lfu", "evict-fifo",
-                            "lfu-tie", "lfu-candidates-pruned"],
-        "model_modules": ["TR.Model.Cache", "TR.Lemmas.Cache"],
-        "lean_files": ["TR.Model.Cache", "TR.Lemmas.Cache"],
+                            "lfu-tie", "lfu-candidates-pruned", "expired-removed-not-newest", "evict-after-expiry-restore"],
+        "model_modules": ["TR.Model.Cache", "TR.Lemmas.Cache", "TR.Lemmas.CacheFifo"],
+        "lean_files": ["TR.Model.Cache", "TR.Lemmas.Cache", "TR.Lemmas.CacheFifo"],
         "sizes": (600, 40000),
         "rule": "seeded random op sequences (arrive key=1..6 / poll / drop / adv / settle) against the real CacheLayer and SharedCacheLayer "
                 "(two services), policy lru/lfu/fifo, max_size 1..4 (2% max_size=0), ttl none/1..10/20..60 ms, inner latency 0..20 ms with "
                 "ok/err/panic/never, keys biased to in-flight and recent ones (concurrent misses, re-inserts), advances biased to "
                 "completion and completion+ttl -1/0/+1, a final read-back of the key space; every inner response carries a fresh serial. "
+                "8% expired-entry-whose-refresh-fails scenarios; 12% expiry/re-store/evict scenarios (max_size 2..5, any policy, store "
+                "filled at staggered instants, inserted_at sometimes refreshed by a late concurrent completion, advance so that a "
+                "non-newest subset has expired, some expired keys requested again in any order, new keys forcing evictions, read-back "
+                "of every key, survivors first; one or two rounds). "
                 "distinct = distinct implementation event log; non-trivial = at least one hit and an eviction, an expiry, a hit exactly at "
                 "the TTL, concurrent misses on one key or an overwrite by a later completion",
         "level_text": "Theorems TR.Props.C10.{size_bounded, keys_unique, store_refines_spec, stored_only_by_ok_completion, hit_is_latest, "
                       "hit_right_key, hit_no_inner_call, hit_result, miss_calls_once, only_arrive_calls, inner_call_at_most_once, "
                       "errors_not_cached, cached_values_are_ok_responses, completion_inserts, victim_lru, victim_fifo, victim_lfu, "
-                      "no_eviction_otherwise, cap_is_max}: for every operation sequence (any key space, any interleaving of lookups, "
+                      "no_eviction_otherwise, fifo_queue_step, fifo_survivors_keep_order, fifo_queue_in_creation_order, "
+                      "victim_fifo_oldest_stored, cap_is_max}: for every operation sequence (any key space, any interleaving of lookups, "
                       "completions, cancellations and time advances, concurrent misses on one key), every policy, every max_size >= 1, TTL "
                       "absent or any value, every LFU victim choice: the store never exceeds max_size and holds no key twice; it refines the "
                       "specification map key -> (value, instant) of the latest Ok completion; a hit returns exactly that value, stored no "
                       "longer than ttl ago, produced for that key by an Ok completion, without an inner call; a miss makes exactly one inner "
                       "call; errors/panics store nothing; a new key into a full store removes the least-recently-used / first-inserted / a "
-                      "minimum-count entry and nothing else. Proved by three inductive invariants over all histories. The model is tied to the "
+                      "minimum-count entry and nothing else; under FIFO every operation either leaves the queue slots alone, deletes exactly the "
+                      "slot of the expired entry it read (front, middle or back; the others keep their order), or appends a newly created "
+                      "entry at the back (after popping the front when full), so after any interleaving of expiry-removals and re-stores the "
+                      "victim is the front of the queue = the entry stored longest without interruption. Proved by three inductive invariants over all histories. The model is tied to the "
                       "real CacheLayer / SharedCacheLayer by line-for-line agreement of event logs on generated histories.",
         "level_note": LEVEL_NOTE,
         "trusted": ["lru::LruCache / HashMap / VecDeque semantics as transcribed in TR.Model.Cache (sampled by the correspondence check)",
